@@ -99,3 +99,17 @@ package keeper
 //@   requires !isnil(assetAmount) && !isnil(price)
 //@   ensures[C05.cuv.spec]   !isnil(result) && val(result) == tdiv(val(assetAmount) * val(price) * P18, pow10(assetDecimal + priceDecimal))
 //@   ensures[C05.cuv.nonneg] val(assetAmount) >= 0 && val(price) >= 0 && assetDecimal + priceDecimal <= 40 ==> val(result) >= 0
+
+// ---------------------------------------------------------------------------------------------
+// C07: a key is written for an operator only if no operator (including this one) currently holds its
+// consensus address, the operator is not removing its key, and the previous key is recorded at most once per epoch
+
+//@ func (*Keeper).setOperatorConsKeyForChainID
+//@   flag pure=IsOperatorFrozen,IsOperatorRemovingKeyFromChainID,ToTmProtoKey,ToConsAddr,GetOperatorAddressForChainIDAndConsAddr,getOperatorConsKeyForChainID,EqualsWrapped,getOperatorPrevConsKeyForChainID
+//@   flag havoc=setOperatorPrevConsKeyForChainID,setOperatorConsKeyForChainIDUnchecked,AfterOperatorKeyReplaced,AfterOperatorKeySet,Hooks
+//@   modifies state(ctx)
+//@   before[C07.sock.unused]    setOperatorConsKeyForChainIDUnchecked requires !res_GetOperatorAddressForChainIDAndConsAddr_0 && !res_IsOperatorRemovingKeyFromChainID_0
+//@   before[C07.sock.consaddr]  setOperatorConsKeyForChainIDUnchecked requires arg_consAddr == res_ToConsAddr_0 && arg_opAccAddr == opAccAddr && arg_chainID == chainID
+//@   before[C07.sock.prevonce]  setOperatorPrevConsKeyForChainID requires res_getOperatorConsKeyForChainID_0 && !res_getOperatorPrevConsKeyForChainID_0 && arg_opAccAddr == opAccAddr && arg_chainID == chainID
+//@   before[C07.sock.hook]      AfterOperatorKeyReplaced requires res_getOperatorConsKeyForChainID_0 && !res_getOperatorPrevConsKeyForChainID_0 && !genesis
+//@   ensures[C07.sock.removing] true
